@@ -177,6 +177,50 @@ fn inverted_winding_checks(job: &Job, st: &mut Stats, nv: usize) {
     }
 }
 
+/// one geometry builder object serving several tessellations in a row (batching): a failure in a later one
+/// must leave the buffers as they were after the earlier, successful ones
+fn builder_reuse_checks(jobs: &[Job], st: &mut Stats) {
+    use lyon_tessellation::geometry_builder::{BuffersBuilder, Positions};
+    let fills: Vec<&Job> = jobs.iter().filter(|j| matches!(j, Job::Fill(..) | Job::FillShape(_))).collect();
+    let strokes: Vec<&Job> = jobs.iter().filter(|j| matches!(j, Job::Stroke(..) | Job::StrokeShape(_))).collect();
+    for (k, first) in fills.iter().enumerate().take(24) {
+        let second = strokes[k % strokes.len()];
+        let third = fills[(k * 7 + 3) % fills.len()];
+        for fail_at in [0usize, 1, 3] {
+            let mut buffers: VertexBuffers<Point, u32> = VertexBuffers::new();
+            buffers.vertices = vec![point(-1.0, -1.0); 5];
+            buffers.indices = vec![0, 1, 2];
+            st.inc("builder_reuse_runs");
+            let text = format!("one BuffersBuilder for {:?}, then {:?}, then {:?} refusing vertex {}", first, second, third, fail_at);
+            let r = catch(AssertUnwindSafe(|| {
+                let mut fb = FailAt { inner: BuffersBuilder::new(&mut buffers, Positions), fail_at: None, seen: 0 };
+                let a = exec_fill_dyn(first, &mut fb).is_ok();
+                let b = exec_stroke_dyn(second, &mut fb).is_ok();
+                let snapshot = (fb.inner.buffers().vertices.len(), fb.inner.buffers().indices.clone());
+                fb.fail_at = Some(fail_at);
+                fb.seen = 0;
+                let c = exec_fill_dyn(third, &mut fb).is_ok();
+                let after = (fb.inner.buffers().vertices.len(), fb.inner.buffers().indices.clone());
+                (a, b, c, snapshot, after)
+            }));
+            match r {
+                None => st.fail(jobj(&[("what", jstr("batched tessellation through one builder panicked")), ("input", jstr(&text))])),
+                Some((a, b, c, snapshot, after)) => {
+                    if !a || !b {
+                        continue;
+                    }
+                    if !c && snapshot != after {
+                        st.fail(jobj(&[("what", jstr("a failed call did not restore the buffers a re-used geometry builder had after its earlier calls")), ("input", jstr(&format!("{} -> {} vertices / {} indices before, {} / {} after", text, snapshot.0, snapshot.1.len(), after.0, after.1.len())))]));
+                    }
+                    if c && (after.1.len() < snapshot.1.len() || after.1[..snapshot.1.len()] != snapshot.1[..]) {
+                        st.fail(jobj(&[("what", jstr("a later call through a re-used geometry builder changed earlier indices")), ("input", jstr(&text))]));
+                    }
+                }
+            }
+        }
+    }
+}
+
 struct Cx<'a> {
     w: &'a mut ShardWriter,
     st: &'a mut Stats,
@@ -333,6 +377,7 @@ pub fn main(args: &Args) -> std::io::Result<()> {
         }
     }
     drop(cx);
+    builder_reuse_checks(&js, &mut st);
     w.finish()?;
     st.write(&args.out.join("c04_stats.json"))
 }
